@@ -626,6 +626,29 @@ fn main() {
                         Ok(Ok(resp)) => {
                             x.out.check_c(true, "server_error_response_panics", &case, "");
                             // RFC 8945 5.2: FORMERR for an uninterpretable / misplaced TSIG, 5.2.2-5.2.4: NOTAUTH + TSIG error otherwise
+                            // the octets: for NOTAUTH errors the request's TSIG is echoed with an empty MAC
+                            if word != "FORMERR" && w.len() >= tsig_at + owner + 10 + algw + 16 && w.len() >= wire.len() {
+                                let rrlen = owner + 10 + algw + 16;
+                                if resp.len() >= 12 + rrlen {
+                                    let mut prer = resp[..resp.len() - rrlen].to_vec();
+                                    let ar = u16::from_be_bytes([prer[10], prer[11]]).wrapping_sub(1); prer[10..12].copy_from_slice(&ar.to_be_bytes());
+                                    let wcase = format!("serrw {} {} {} {}", ks.words(), hex(&w), t, hex(&prer));
+                                    x.out.case(&wcase, &format!("Ok {}", hex(&resp)), true, "serrw");
+                                    // reference: RFC 8945 5.3.2 - time values and names of the request, MAC empty, error code, request ID
+                                    let code: u16 = match word.as_str() { "BADSIG" => 16, "BADKEY" => 17, "BADTRUNC" => 22, _ => 0 };
+                                    let mut rd = w[rd_at..rd_at + algw + 8].to_vec();           // algorithm name, time signed, fudge as sent
+                                    rd.extend_from_slice(&[0, 0]);                                 // MAC size 0
+                                    rd.extend_from_slice(&w[0..2]);                                // original ID := ID of the request
+                                    rd.extend_from_slice(&code.to_be_bytes());
+                                    rd.extend_from_slice(&[0, 0]);                                 // other len
+                                    let mut rr = w[tsig_at..tsig_at + owner].to_vec();
+                                    rr.extend_from_slice(&[0, 250, 0, 255, 0, 0, 0, 0]);
+                                    rr.extend_from_slice(&(rd.len() as u16).to_be_bytes());
+                                    rr.extend_from_slice(&rd);
+                                    let want = add_rr(&prer, &rr);
+                                    if code != 0 { x.out.check_c(resp == want, "unsigned_error_response_octets", &wcase, &format!("{}: implementation {} reference {}", kind, hex(&resp), hex(&want))); }
+                                }
+                            }
                             let rc = resp[3] & 0x0f;
                             let want = if word == "FORMERR" { 1 } else { 9 };
                             x.out.check_c(rc == want, "server_error_response_wrong_rcode", &case, &format!("{}: TSIG error {} answered with RCODE {} (want {}): {}", kind, word, rc, want, hex(&resp)));
@@ -839,10 +862,14 @@ fn main() {
             let k = KeySpec { alg, secret: r.bytes(sl), name: b"\x03mid\x04ware\x03Key\x00".to_vec(), min: Some(lo), sign };
             let Ok(key) = k.lib() else { continue };
             let id = r.u16();
-            let req_b = gen_message(&mut r, id, false);
-            let pre = req_b.as_slice().to_vec();
-            if Message::from_octets(pre.clone()).map(|m| m.first_question().is_none()).unwrap_or(true) { continue; }
+            let mut pre = vec![];
+            for _ in 0..8 {
+                let cand = gen_message(&mut r, id, false).as_slice().to_vec();
+                if Message::from_octets(cand.clone()).map(|m| m.first_question().is_some()).unwrap_or(false) { pre = cand; break; }
+            }
+            if pre.is_empty() { out.count("middleware_no_request_generated"); continue; }
             let mut b = builder_from(&pre);
+            let started = std::time::Instant::now();
             let now = Time48::now();
             let Ok(tr) = ClientTransaction::request(key.clone(), &mut b, now) else { continue };
             let wire = b.finish();
@@ -858,6 +885,9 @@ fn main() {
                 match stream.next().await { Some(Ok(cr)) => cr.into_inner().0.map(|b| b.finish().as_dgram_slice().to_vec()), _ => None }
             }));
             out.oracle_case(&case, true, "middleware");
+            // signing and verification both read the wall clock (fudge 300 s): if this
+            // process was stopped for a long time in between, nothing can be concluded
+            if started.elapsed().as_secs() > 100 { out.count("middleware_slow_skipped"); continue; }
             let resp = match resp { Ok(Some(v)) => v, Ok(None) => { out.check_c(false, "middleware_no_response", &case, ""); continue } Err(e) => { let e: String = e; out.check_c(false, "middleware_panic", &case, &e); continue } };
             let rcode = resp[3] & 0x0f;
             match mode {
@@ -895,6 +925,101 @@ fn main() {
                     let has_tsig = m.additional().map(|sec| sec.flatten().any(|rr| rr.rtype() == Rtype::TSIG)).unwrap_or(true);
                     out.check_c(rcode == 0 && !has_tsig, "middleware_unsigned_passthrough", &case, &hex(&resp));
                 }
+            }
+        }
+    }
+
+    // ---- 3d. the client TSIG wrapper (net/client/tsig.rs) end to end against an in-process server side
+    {
+        use domain::net::client::request::{ComposeRequest, Error, GetResponse, RequestMessage, SendRequest};
+        use domain::net::client::tsig::Connection;
+        use std::sync::{Arc, Mutex};
+        #[derive(Debug)]
+        struct Get { resp: Option<Result<Message<bytes::Bytes>, Error>> }
+        impl GetResponse for Get {
+            fn get_response(&mut self) -> std::pin::Pin<Box<dyn std::future::Future<Output = Result<Message<bytes::Bytes>, Error>> + Send + Sync + '_>> {
+                Box::pin(std::future::ready(self.resp.take().unwrap_or(Err(Error::ConnectionClosed))))
+            }
+        }
+        struct Upstream { key: Key, mode: u8, log: Arc<Mutex<(Vec<u8>, Vec<u8>, String)>> }
+        impl<CR: ComposeRequest + std::fmt::Debug + Send + Sync + 'static> SendRequest<CR> for Upstream {
+            fn send_request(&self, request_msg: CR) -> Box<dyn GetResponse + Send + Sync> {
+                // what goes on the wire: the wrapper's request message signs while composing
+                let Ok(wire) = request_msg.to_vec() else { return Box::new(Get { resp: Some(Err(Error::ConnectionClosed)) }) };
+                let mut log = self.log.lock().unwrap();
+                log.0 = wire.clone();
+                let mut m = Message::from_octets(wire).unwrap();
+                let st = match ServerTransaction::request(&&self.key, &mut m, Time48::now()) {
+                    Ok(Some(st)) => st,
+                    Ok(None) => { log.2 = "server: request unsigned".into(); return Box::new(Get { resp: Some(Err(Error::ConnectionClosed)) }) }
+                    Err(e) => { log.2 = format!("server: {}", e.error()); return Box::new(Get { resp: Some(Err(Error::ConnectionClosed)) }) }
+                };
+                let b = MessageBuilder::new_vec();
+                let mut a = b.start_answer(&m, Rcode::NOERROR).unwrap();
+                if let Some(q) = m.first_question() { a.push((q.qname(), Class::IN, Ttl::from_secs(9), A::from_octets(198, 51, 100, 1))).unwrap(); }
+                let mut ad = a.additional();
+                log.1 = ad.as_slice().to_vec();
+                if self.mode != 2 { st.answer(&mut ad, Time48::now()).unwrap(); }
+                let mut resp = ad.finish();
+                if self.mode == 1 { let n = log.1.len(); resp[n - 1] ^= 0x01; }
+                Box::new(Get { resp: Some(Ok(Message::from_octets(bytes::Bytes::from(resp)).unwrap())) })
+            }
+        }
+        let rt = tokio::runtime::Builder::new_current_thread().enable_all().build().unwrap();
+        let n = if thorough { 200 } else { 9 } * scale;
+        for it in 0..n {
+            let mut r = r.fork();
+            idx += 1; if !out.wants(idx) { continue; }
+            let alg = Alg::all()[it % 4];
+            let lo = std::cmp::max(10, alg.native() / 2);
+            let sign = if it % 2 == 0 { Some(r.range(lo as u64, alg.native() as u64) as usize) } else { None };
+            let sl = r.range(8, 40) as usize;
+            let k = KeySpec { alg, secret: r.bytes(sl), name: b"\x06client\x03Key\x00".to_vec(), min: Some(lo), sign };
+            let Ok(key) = k.lib() else { continue };
+            let id = r.u16();
+            // a request the wrapper accepts: deterministic retries, then skip-and-count
+            let mut found = None;
+            for _ in 0..8 {
+                let q = gen_message(&mut r, id, false);
+                let pre = q.as_slice().to_vec();
+                let Ok(qm) = Message::from_octets(pre.clone()) else { continue };
+                if qm.first_question().is_none() { continue; }
+                if let Ok(rm) = RequestMessage::new(qm) { found = Some((pre, rm)); break; }
+            }
+            let Some((pre, reqmsg)) = found else { out.count("client_wrapper_no_request_generated"); continue };
+            let mode = (it % 3) as u8; // 0 honest, 1 tampered answer, 2 unsigned answer
+            let case = format!("client_wrapper mode={} {} {}", mode, k.words(), hex(&pre));
+            out.begin(&case);
+            let log = Arc::new(Mutex::new((vec![], vec![], String::new())));
+            let conn = Connection::new(key.clone(), Upstream { key: key.clone(), mode, log: log.clone() });
+            let started = std::time::Instant::now();
+            let res = catch_mut(|| rt.block_on(async { let mut g = SendRequest::send_request(&conn, reqmsg); g.get_response().await }));
+            out.oracle_case(&case, true, "client_wrapper");
+            if started.elapsed().as_secs() > 100 { out.count("client_wrapper_slow_skipped"); continue; }
+            let (wire, apre, note) = log.lock().unwrap().clone();
+            let res = match res { Ok(r) => r, Err(p) => { out.check_c(false, "client_wrapper_panic", &case, &p); continue } };
+            if !note.is_empty() || wire.is_empty() { out.check_c(false, "client_wrapper_request_rejected", &case, &format!("{} request {}", note, hex(&wire))); continue; }
+            // the request on the wire carries the RFC 8945 MAC
+            let rr_len = k.name.len() + 10 + k.alg.name_wire().len() + 16 + k.sign_len();
+            if wire.len() > rr_len + 12 {
+                let mut p = wire[..wire.len() - rr_len].to_vec();
+                let ar = u16::from_be_bytes([p[10], p[11]]).wrapping_sub(1); p[10..12].copy_from_slice(&ar.to_be_bytes());
+                let tpos = wire.len() - rr_len + k.name.len() + 10 + k.alg.name_wire().len();
+                let mut tb = [0u8; 8]; tb[2..].copy_from_slice(&wire[tpos..tpos + 6]);
+                let fudge = u16::from_be_bytes([wire[tpos + 6], wire[tpos + 7]]);
+                let (_, want) = rfc_sign(&consts, &k, &[], &p, u64::from_be_bytes(tb), fudge, 0, &[], false);
+                out.check_c(wire == want, "client_wrapper_mac_rfc8945", &case, &format!("request {} reference {}", hex(&wire), hex(&want)));
+            } else { out.check_c(false, "client_wrapper_mac_rfc8945", &case, &format!("request without TSIG: {}", hex(&wire))); }
+            match mode {
+                0 => match &res {
+                    Ok(m) => {
+                        let has_tsig = m.additional().map(|sec| sec.flatten().any(|rr| rr.rtype() == Rtype::TSIG)).unwrap_or(true);
+                        out.check_c(!has_tsig && m.as_slice().len() >= apre.len() && m.as_slice()[..apre.len()] == apre[..], "client_wrapper_answer_not_restored", &case, &format!("got {} server built {}", hex(m.as_slice()), hex(&apre)));
+                    }
+                    Err(e) => out.check_c(false, "client_wrapper_exchange_rejected", &case, &format!("{}", e)),
+                },
+                1 => out.check_c(matches!(&res, Err(Error::Authentication(ValidationError::BadSig))), "client_wrapper_tampered_accepted", &case, &format!("{:?}", res.as_ref().map(|m| hex(m.as_slice())).map_err(|e| e.to_string()))),
+                _ => out.check_c(matches!(&res, Err(Error::Authentication(ValidationError::ServerUnsigned))), "client_wrapper_unsigned_accepted", &case, &format!("{:?}", res.as_ref().map(|m| hex(m.as_slice())).map_err(|e| e.to_string()))),
             }
         }
     }
